@@ -231,3 +231,13 @@ Definition ds_trace (ops : list dsop) : list Z :=
       | DsGet n => (c, out ++ [res_code oid (dsc_get c n)])
       end) ops ([], []) in
   out ++ [-7] ++ od_keys c ++ [-7] ++ map (fun kv => oid (snd kv)) c.
+
+(* the four stage constants of DataFieldStages (regenerated from the class body) *)
+Definition dfs_constants : list Z := [dfs_dataprep_exp; dfs_dataprep_mc; dfs_analysis_exp; dfs_analysis_mc].
+
+(* each constant is one bit, different constants have no bit in common *)
+Definition single_bit (c : Z) : bool := (0 <? c) && (Z.land c (c - 1) =? 0).
+Definition constants_ok (cs : list Z) : bool :=
+  forallb single_bit cs
+  && forallb (fun a => forallb (fun b => (a =? b) || (Z.land a b =? 0)) cs) cs
+  && (Z.of_nat (length (nodup Z.eq_dec cs)) =? Z.of_nat (length cs)).
